@@ -54,7 +54,9 @@ def strategy_(draw, tier):
     locs = [base_dir, base_dir + "/" + nm, base_dir + "/sub/y", base_dir + "/sub/" + nm,
             base_dir + "bar", base_dir + "bar/z", base_dir + " /z", base_dir + "/../foo2/x",
             base_dir.rsplit("/", 1)[0] + "/other", base_dir.rsplit("/", 1)[0], "/top",
-            base_dir + "/x", base_dir + "/x1", base_dir + "/x 1", base_dir + "/X"]
+            base_dir + "/x", base_dir + "/x1", base_dir + "/x 1", base_dir + "/X",
+            # look-alikes of the requested directory itself: a trailing line feed / blank / dot
+            base_dir + "\n", base_dir + "\n/in", base_dir + ".", base_dir + "\r"]
     locs = [l for l in locs if "/../" not in l]
     ents = []
     seen = set()
@@ -163,14 +165,18 @@ def run_case(case):
         m = re.match(r"^ *(\d+) (.*)$", ln)
         if m and len(ln) > 5 and ln[:4].strip().isdigit():
             # a name may contain newlines: extend the record until it matches a known entry
+            # (the LONGEST known record wins: 'x' and 'x<LF>' may both be entries)
             rec = m.group(2)
             j = i
-            while rec not in by_line and j + 1 < len(lines) and len(rec) < 600:
+            best = (rec, j) if rec in by_line else None
+            while j + 1 < len(lines) and len(rec) < 600:
                 j += 1
                 rec += "\n" + lines[j]
-            if rec in by_line:
-                listed.append((int(m.group(1)), by_line[rec]))
-                i = j + 1
+                if rec in by_line:
+                    best = (rec, j)
+            if best is not None:
+                listed.append((int(m.group(1)), by_line[best[0]]))
+                i = best[1] + 1
                 continue
             ok = False
         i += 1
